@@ -79,6 +79,8 @@ class HttpWorld:
         self.in_pump: Optional[int] = None
         self.flow_context.to_proxy_queue.on_put = self._on_to_proxy
         self.flow_context.from_proxy_queue.on_put = self._on_from_proxy
+        self.flow_context.from_proxy_queue.on_get = self._on_main_get
+        self.main_log: List[dict] = []    # what the main process did, in the order it did it
         self._wrap_pump()
 
     # ---- instrumentation ---------------------------------------------------------
@@ -98,6 +100,9 @@ class HttpWorld:
 
     def _on_to_proxy(self, t, item):
         self.to_proxy_log.append({"t": t, "type": item[0], "flow_id": item[1], "state": item[2], "pump": self.in_pump})
+
+    def _on_main_get(self, t, item):
+        self.main_log.append({"what": "event", "t": t, "type": item[0], "flow_id": item[1]["id"]})
 
     def _on_from_proxy(self, t, item):
         self.from_proxy_log.append({"t": t, "type": item[0], "flow_id": item[1]["id"], "state": item[1]})
